@@ -153,9 +153,9 @@ void h_determinism(void) {
                   checks=['--bounds-check', '--pointer-check', '--div-by-zero-check', '--undefined-shift-check'],
                   unwind=28, min_obligations=10, functions=[fn, ctor, cls], canary='CANARY', canary_label='canary', solver='cvc5',
                   defines=['OA=%d' % oa, 'OB=%d' % ob], param='placement offsets %d / %d' % (oa, ob),
-                  strength='bounded', bound='buffers of <= 9 bytes placed at offsets %d and %d of two 8-aligned arrays' % (oa, ob), timeout=900,
+                  strength='bounded', bound='buffers of <= 9 bytes placed at offsets %d and %d of two 8-aligned arrays' % (oa, ob), timeout=600,
                   replay=replaylib.replay_hash_determinism)
-            for oa, ob in [(0, 1), (1, 2), (0, 3), (2, 0), (0, 4), (3, 5)]]
+            for oa, ob in ([(0, 1), (3, 5)] if ctx.tier == 'quick' else [(0, 1), (1, 2), (0, 3), (2, 0), (0, 4), (3, 5)])]
 
 
 # ---------------------------------------------------------- hash_t members, C++
